@@ -23,6 +23,7 @@ impl Family for C02Family {
             real: &["passkey-client::Client::register", "Authenticator::make_credential", "CoseKeyPair / public_key_der_from_cose_key", "AuthenticatorData encoding", "lock wrappers over tokio::sync"],
             stubs: &["executor", "SimStore seam + reference store", "SimUser", "seeded RNG behind the hook", "relying-party verifier (independent decoders)"],
             crash_isolated: false,
+            fresh_thread: true,
         }
     }
 
@@ -36,7 +37,13 @@ impl Family for C02Family {
     fn generate(&self, master: u64, index: u64, _tier: Tier) -> Scenario {
         let mut r = Rng::new(run_seed(master, "C02", index));
         let faulty = index % 2 == 1;
-        let opts = HistOpts { faults: faulty, concurrent: faulty && r.chance(1, 3), weights: [6, 2, 3, 1], ..Default::default() };
+        // one run in six registers into a shipped store (single slot or map)
+        let backend = match r.below(12) {
+            0 => Backend::Slot,
+            1 => Backend::Memory,
+            _ => Backend::Ref,
+        };
+        let opts = HistOpts { faults: faulty, concurrent: faulty && r.chance(1, 3), weights: [6, 2, 3, 1], backend, ..Default::default() };
         let mut c = gen_history(&mut r, &opts);
         // CTAP-level requests may also lack a supported algorithm
         for a in c.actors.iter_mut() {
@@ -56,7 +63,7 @@ impl Family for C02Family {
         let c = ceremony_of(scn);
         let rec = run_and_measure(c, stats);
         let mut j = Judge::new("C02", scn, &rec);
-        for p in ["registration_succeeded_under_faults", "registration_on_shared_store", "unsupported_algorithm_list", "empty_algorithm_list_defaults", "caller_supplied_hash", "id_length_clamped_low", "id_length_clamped_high"] {
+        for p in ["registration_into_shipped_store", "registration_succeeded_under_faults", "registration_on_shared_store", "unsupported_algorithm_list", "empty_algorithm_list_defaults", "caller_supplied_hash", "id_length_clamped_low", "id_length_clamped_high"] {
             stats.declare_probe(p);
         }
         if rec.panic.is_some() || rec.outcome != Outcome2::Done {
@@ -104,6 +111,9 @@ impl Family for C02Family {
                 }
             }
             if o.result.is_ok() && is_registration(kind) {
+                if c.backend != Backend::Ref {
+                    stats.probe("registration_into_shipped_store");
+                }
                 if scn.batch == "faults" {
                     stats.probe("registration_succeeded_under_faults");
                 }
